@@ -22,7 +22,7 @@ Fixpoint info_of (t : list (string * uinfo)) (u : string) : uinfo :=
 
 Inductive input :=
 | IValidate (c : client) (u rt : string) (t : tables)            (* op.ValidateAuthReqRedirectURI *)
-| IHistory (reqobj_supported : bool) (cs : list client) (t : tables) (ops : list op).
+| IHistory (reqobj_supported : bool) (notfound : errkind) (cs : list client) (t : tables) (ops : list op).
 
 Inductive observed :=
 | OValidate (r : vres)
@@ -34,8 +34,8 @@ Definition model (i : input) : observed :=
   match i with
   | IValidate c u rt t =>
       OValidate (validate_redirect (glob_of (t_glob t)) (fun u => u_loop (info_of (t_uri t) u)) c u rt)
-  | IHistory ro cs t ops =>
-      OHistory (run (glob_of (t_glob t)) (info_of (t_uri t)) ro cs [] ops)
+  | IHistory ro nf cs t ops =>
+      OHistory (run (glob_of (t_glob t)) (info_of (t_uri t)) ro nf cs [] ops)
   end.
 
 (* ------------------------------------------------------------------ property *)
@@ -71,9 +71,11 @@ Section Spec.
   Definition no_redirect (x : out) : bool :=
     match x with ORedirect _ _ _ | OForm _ | OLogin _ | OPanic => false | _ => true end.
 
-  (* missing / unknown client / non-matching redirect URI *)
+  (* missing / unknown client (every way the client lookup can fail: not registered, or the
+     storage call itself fails) / non-matching redirect URI *)
   Definition must_page (q : areq) : bool :=
     String.eqb (q_uri q) "" ||
+    match q_fault q with AF_GetClient _ => true | _ => false end ||
     match find_client cs (q_client q) with
     | None => true
     | Some c => negb (matching c (q_uri q))
@@ -138,7 +140,7 @@ Definition spec (i : input) (o : observed) : bool :=
   | IValidate c u rt t, OValidateOther =>
       (* a redirectable error is acceptable only for a URI that is registered *)
       registered (glob_of (t_glob t)) (info_of (t_uri t)) c u rt
-  | IHistory _ cs t ops, OHistory outs =>
+  | IHistory _ _ cs t ops, OHistory outs =>
       spec_hist (glob_of (t_glob t)) (info_of (t_uri t)) cs [] ops outs
   | _, _ => false
   end.
@@ -181,7 +183,7 @@ Definition path (i : input) (o : observed) : nat :=
       | VBad => 4 + (if is_http u then 1 else 0) + (match c_app c with Native => 2 | _ => 0 end)
       | VGlobErr => 8
       end
-  | IHistory _ _ _ _, OHistory outs =>
+  | IHistory _ _ _ _ _, OHistory outs =>
       fold_left (fun acc x => acc + out_class x) outs 0
   | _, _ => 0
   end.
